@@ -88,6 +88,26 @@ class ToyFile(FileBasedPacketSerializer[bytes, bytes]):
         return data
 
 
+class PeekFile(ToyFile):
+    """same format as ToyFile, but the loader looks at the header and raises EOFError as soon as it sees that the body is
+    incomplete, WITHOUT reading the partial body (the file position is then not at the end) — allowed by the documented
+    contract of load_from_file()"""
+
+    def load_from_file(self, file: io.IOBase) -> bytes:
+        h = file.read(1)
+        if not h:
+            raise EOFError
+        n = h[0]
+        if n > 200:
+            raise ToyFileError(f"bad length byte {n}")
+        here = file.tell()
+        end = file.seek(0, 2)
+        file.seek(here)
+        if end - here < n:
+            raise EOFError
+        return file.read(n)
+
+
 Point = collections.namedtuple("Point", ["x", "y", "name"])
 
 
@@ -117,6 +137,8 @@ def build(spec: dict) -> Any:
         return RawFixed(spec["size"])
     if k == "filetoy":
         return ToyFile(spec["limit"])
+    if k == "filepeek":
+        return PeekFile(spec["limit"])
     if k == "pickle":
         return PickleSerializer()
     if k == "stapled":
@@ -291,7 +313,7 @@ def gen_packet(rng, spec: dict, maxlen: int = 12) -> Any:
     if k == "fixed":
         p = bytes(rng.randrange(0, 255) for _ in range(spec["size"]))
         return p if p[:1] != b"\xff" else b"a" + p[1:]
-    if k == "filetoy":
+    if k in ("filetoy", "filepeek"):
         return bytes(rng.randrange(256) for _ in range(rng.randint(0, maxlen)))
     if k == "pickle":
         return rng.choice([1, "a", [1, 2], {"k": (1, 2)}, None, b"xyz"])
@@ -301,7 +323,7 @@ def gen_packet(rng, spec: dict, maxlen: int = 12) -> Any:
 def expected_received(spec: dict, packet: Any) -> Any:
     """what the receive side should return for a sent packet (identity but for representation changes)"""
     r = recv_spec(spec)
-    if r["k"] in ("autosep", "fixed", "filetoy"):
+    if r["k"] in ("autosep", "fixed", "filetoy", "filepeek"):
         return bytes(packet)
     if r["k"] == "struct":
         return tuple(packet)
@@ -311,7 +333,7 @@ def expected_received(spec: dict, packet: Any) -> Any:
 def gen_spec(rng, *, limits=(8, 16, 64, 65536), allow=None) -> dict:
     """a random serializer configuration (receive and send side identical)"""
     kinds = allow or ["line", "line", "json", "jsonraw", "struct", "ntstruct", "b64", "zlib", "bz2",
-                      "autosep", "autosep", "fixed", "filetoy", "stapledbuf"]
+                      "autosep", "autosep", "fixed", "filetoy", "filepeek", "stapledbuf"]
     k = rng.choice(kinds)
     lim = rng.choice(limits)
     if k == "line":
@@ -339,8 +361,8 @@ def gen_spec(rng, *, limits=(8, 16, 64, 65536), allow=None) -> dict:
                 "limit": max(lim, 4), "check": True}
     if k == "fixed":
         return {"k": "fixed", "size": rng.choice([1, 2, 5, 9])}
-    if k == "filetoy":
-        return {"k": "filetoy", "limit": max(lim, 32)}
+    if k in ("filetoy", "filepeek"):
+        return {"k": k, "limit": max(lim, 32)}
     if k == "stapledbuf":
         a = gen_spec(rng, limits=limits, allow=["line", "autosep", "fixed"])
         return {"k": "stapledbuf", "sent": a, "received": a}
